@@ -9,6 +9,7 @@ directories and file names (os / posixpath / open / urlopen cannot take symbolic
 import z3
 
 from ..base import Harness
+from . import pipeline as P
 from ..core import deep_eq
 from ..symstr import char_is, is_ascii_alpha, is_ascii_digit
 
@@ -50,6 +51,16 @@ class FakeFile:
         self.name = name
 
 
+def ref_pred(c, i):
+    """characters of a path-only reference: two letters, '.', '/', '#'"""
+    return z3.Or(c == 97, c == 98, c == 46, c == 47, c == 35)
+
+
+# path below http://m/ -> content
+INCL_STORE = {'d/a': ['kc da'], 'd/b': ['kc db'], 'd/aa': ['kc daa'], 'd/s/a': ['kc dsa'], 'd/s/b': ['kc dsb'],
+              'd/a/a': ['kc daa2'], 'a': ['kc ra'], 'b/a': ['kc rba'], 'd/s/s/a': ['kc dssa']}
+
+
 class C18(Harness):
     prop = 'C18'
     domain = 'D'
@@ -69,7 +80,7 @@ class C18(Harness):
         'strings ending in "#" are excluded from normalizeURL (empty fragment: urlunparse re-assembly)',
         'characters over domain D; lower() of characters outside D is excluded',
     )
-    expected_classes = ('ok',)
+    expected_classes = ('ok', 'reject')
     nontrivial_rule = 'the witness string is non-empty'
     step_limit = 40000
 
@@ -98,6 +109,15 @@ class C18(Harness):
             us.append({'fn': 'urlnormalize', 'len': L, 'prefix': 'file://'})
             us.append({'fn': 'normalizeURL', 'len': L, 'prefix': 'file:/'})
             us.append({'fn': 'normalizeURL', 'len': L, 'prefix': 'http://h/a'})
+        return us + self.incl_units(tier)
+
+    # ---- %include references through the loader (instrumented urljoin / urldefrag)
+    def incl_units(self, tier):
+        us = []
+        for where in ('top', 'sub'):
+            for pre, n in (('', 2), ('a', 2), ('../', 1), ('', 3)) if tier == 'quick' else \
+                    (('', 2), ('a', 2), ('../', 1), ('', 3), ('a', 3), ('s/', 2), ('./', 2), ('', 4)):
+                us.append({'fn': 'include', 'where': where, 'prefix': pre, 'len': n})
         return us
 
     def preflight(self, tier):
@@ -116,6 +136,13 @@ class C18(Harness):
         return out
 
     def inputs(self, eng, unit):
+        if unit['fn'] == 'include':
+            s = self.sym_str(eng, 's', unit['len'], ref_pred)
+            if not unit['prefix'] and unit['len'] >= 2:
+                # '//...' names another authority; with an empty one it is the includer itself
+                # (a self-include is F7's subject, C07)
+                eng.assume(z3.Not(z3.And(s.cs[0] == 47, s.cs[1] == 47)))
+            return {'s': s}
         s = self.sym_str(eng, 's', unit['len'])
         if unit['fn'] == 'normalizeURL' and unit['len'] > 0:
             # '#' followed by nothing: urllib re-assembles the URL (urlunparse), not modelled
@@ -133,6 +160,8 @@ class C18(Harness):
         s = unit.get('prefix', '') + inp['s']
         fn = unit['fn']
         concrete = isinstance(s, str)
+        if fn == 'include':
+            return self._include(unit, s)
 
         def defrag(u):
             i = u.find('#')
@@ -168,9 +197,87 @@ class C18(Harness):
         finally:
             instr.FUNC_STUBS.clear()
 
+    def _include(self, unit, arg):
+        from .. import instr
+        from . import common
+        from .c01 import XML
+        if instr.installed():
+            instr.install_urllib()
+        files = dict(INCL_STORE)
+        if unit['where'] == 'top':
+            main = ['%include ' + arg]
+        else:
+            main = ['%include s/i.conf']
+            files['d/s/i.conf'] = ['%include ' + arg]
+        store = {'http://m/' + k: v for k, v in files.items()}
+        xml = XML['S1'].replace('required="yes"', '')
+        with P.mem_resources(store):
+            r = P.run_load(xml, main, url=P.MAIN)
+        if r[0] == 'ok':
+            return ('ok', P.walk(r[1].kc))
+        if r[0] == 'reject':
+            return ('reject',)
+        return ('crash', r[1])
+
+    def _include_expect(self, unit, arg):
+        """RFC 3986 section 5.2 for a path-only reference against the includer's URL; a fragment
+        is refused; the in-memory tree decides whether the target exists"""
+        for i in range(len(arg)):
+            if char_is(arg[i], '#'):
+                if i == len(arg) - 1:
+                    return ('any',)                  # '#' followed by nothing: no fragment identifier
+                return ('reject',)
+        base = ['d'] if unit['where'] == 'top' else ['d', 's']
+        if len(arg) >= 2 and char_is(arg[0], '/') and char_is(arg[1], '/'):
+            if len(arg) == 2:
+                return ('any',)                      # empty authority: the includer itself (F7, C07)
+            return ('reject',)                       # another authority: nothing there
+        segs = []
+        cur = ''
+        for i in range(len(arg)):
+            if char_is(arg[i], '/'):
+                segs.append(cur)
+                cur = ''
+            else:
+                cur = cur + arg[i]
+        segs.append(cur)
+        if len(arg) > 0 and char_is(arg[0], '/'):
+            work = segs[1:]
+            out = []
+        else:
+            work = segs
+            out = list(base)
+        trailing = False
+        for j, sg in enumerate(work):
+            last = j == len(work) - 1
+            if sg == '..':
+                if out:
+                    out.pop()
+                trailing = last
+            elif sg == '.':
+                trailing = last
+            elif len(sg) == 0:
+                trailing = last
+            else:
+                out.append(sg)
+                trailing = False
+        if trailing:
+            return ('reject',)                       # names a directory
+        path = ''
+        for j, sg in enumerate(out):
+            path = path + ('/' if j else '') + sg
+        for k, v in INCL_STORE.items():
+            if path == k:
+                return ('ok', ('L', [v[0].split(' ', 1)[1]]))
+        if path == 'd/main.conf' or (unit['where'] == 'sub' and path == 'd/s/i.conf'):
+            return ('any',)                          # includes itself: F7 (C07)
+        return ('reject',)
+
     def expect(self, unit, inp, real):
         s = unit.get('prefix', '') + inp['s']
         fn = unit['fn']
+        if fn == 'include':
+            return self._include_expect(unit, s)
         if fn == 'urlnormalize':
             return ('ok', ref_urlnormalize(s))
         if fn == 'urljoin':
@@ -196,6 +303,8 @@ class C18(Harness):
 
     def agree(self, unit, real, exp):
         if exp[0] == 'any':
+            if unit['fn'] == 'include':
+                return z3.BoolVal(True)
             return z3.BoolVal(real[0] == 'ok')
         return deep_eq(real, exp)
 
